@@ -16,7 +16,11 @@ type ReplicaOpts struct {
 	RestartAfter map[int64]bool // clean stop/start after these heights
 	RestartAll   bool           // restart after every block
 	CheckTxNoise bool           // run CheckTx of each tx of the block before the block (mempool connection)
-	Name         string
+	// CrashAt: the process dies inside block h after BeginBlock and the first k transactions
+	// (k = -1: right after BeginBlock, k >= len(txs): after EndBlock, before Commit). Nothing of
+	// the block is durable; the node restarts from its database and executes the block again.
+	CrashAt map[int64]int
+	Name    string
 }
 
 // Divergence describes the first difference between a replica and the canonical execution.
@@ -50,6 +54,32 @@ func (r *Run) RunReplica(o ReplicaOpts) (*Divergence, *PanicError) {
 				if _, p := n.CheckTx(tx, false); p != nil {
 					return nil, p
 				}
+			}
+		}
+		if k, crash := o.CrashAt[b.Height]; crash {
+			// partial execution that is lost with the process
+			if _, p := n.BeginBlock(c.BeginBlockRequest(b.Header, b.Votes, b.Evidence)); p != nil {
+				return nil, p
+			}
+			for i, tx := range b.Txs {
+				if i > k {
+					break
+				}
+				if _, p := n.DeliverTx(tx); p != nil {
+					return nil, p
+				}
+			}
+			if k >= len(b.Txs) {
+				if _, p := n.EndBlock(b.Height); p != nil {
+					return nil, p
+				}
+			}
+			n.Stop()
+			if err := n.Start(); err != nil {
+				return &Divergence{b.Height, "restart", err.Error()}, nil
+			}
+			if got := n.App.LastBlockHeight(); got != b.Height-1 {
+				return &Divergence{b.Height, "restart-height", fmt.Sprintf("after a crash inside block %d the node restored height %d", b.Height, got)}, nil
 			}
 		}
 		if _, p := n.BeginBlock(c.BeginBlockRequest(b.Header, b.Votes, b.Evidence)); p != nil {
